@@ -157,6 +157,7 @@ struct SimState {
   struct Fd { bool open = false; int file = -1; size_t pos = 0; bool writable = false; bool append = false; bool wfailed = false; int werrno = 0; bool to_stdout = false; int lock = 0; /* flock: 0 none, 1 shared, 2 exclusive */ };
   std::vector<Fd> fds;
   std::map<void *, size_t> heap;  // blocks allocated by real code
+  std::string heap_overrun;       // first heap block found overrun since the last heap_overrun_take()
   std::map<FILE *, OutStream *> ostreams;
   std::set<FILE *> istreams;  // input streams real code opened with fopen(path, "r")
   std::map<FILE *, void *> istream_cookie;
@@ -754,6 +755,30 @@ static inline int heap_junk() {
   static const unsigned char pat[] = {0x00, 0xFF, 0xA5, 0x01, 0x80, 0xFF, 0x7F, 0x00};
   return pat[(G.w.salt >> 7) & 7];
 }
+// Every block the process allocates carries a tail behind its last byte: code that the sanitizer cannot see (the
+// assembled code asmline executes with -r) or that it sees too coarsely must not write past a heap block either -
+// on a real allocator that lands in the next block's bookkeeping.
+static const size_t HEAP_TAIL = 16;
+static const unsigned char HEAP_TAIL_BYTE = 0xC5;
+static void heap_tail_set(void *p, size_t n) { memset((char *)p + n, HEAP_TAIL_BYTE, HEAP_TAIL); }
+static void heap_tail_check(void *p, size_t n, const char *when) {
+  const unsigned char *t = (const unsigned char *)p + n;
+  for (size_t i = 0; i < HEAP_TAIL; i++)
+    if (t[i] != HEAP_TAIL_BYTE) {
+      if (G.heap_overrun.empty()) {
+        char b[160];
+        snprintf(b, sizeof b, "heap block of %zu bytes overrun: byte %zu behind its end was overwritten (found at %s)", n, i, when);
+        G.heap_overrun = b;
+      }
+      return;
+    }
+}
+std::string sim::heap_overrun_take() {
+  for (auto &kv : G.heap) heap_tail_check(kv.first, kv.second, "the end of the operation");
+  std::string r = G.heap_overrun;
+  G.heap_overrun.clear();
+  return r;
+}
 extern "C" void *__wrap_malloc(size_t n) {
   if (!in_lib()) return __real_malloc(n);
   HarnessScope hs_;
@@ -763,10 +788,11 @@ extern "C" void *__wrap_malloc(size_t n) {
     errno = a->err ? a->err : ENOMEM;
     return nullptr;
   }
-  void *p = __real_malloc(n);
+  void *p = __real_malloc(n + HEAP_TAIL);
   if (p) {
     G.heap[p] = n;
     memset(p, heap_junk(), n);  // malloc'ed memory is indeterminate: a pattern chosen by the plan's world, not the allocator's mood
+    heap_tail_set(p, n);
   }
   return p;
 }
@@ -779,8 +805,15 @@ extern "C" void *__wrap_calloc(size_t a_, size_t b_) {
     errno = a->err ? a->err : ENOMEM;
     return nullptr;
   }
-  void *p = __real_calloc(a_, b_);
-  if (p) G.heap[p] = a_ * b_;
+  if (b_ && a_ > ((size_t)-1 - HEAP_TAIL) / b_) {
+    errno = ENOMEM;
+    return nullptr;
+  }
+  void *p = __real_calloc(1, a_ * b_ + HEAP_TAIL);
+  if (p) {
+    G.heap[p] = a_ * b_;
+    heap_tail_set(p, a_ * b_);
+  }
   return p;
 }
 // realloc of a block the process allocated: one more way to ask for memory (a refusal leaves the old block alone)
@@ -795,15 +828,27 @@ extern "C" void *__wrap_realloc(void *p, size_t n) {
     return nullptr;
   }
   size_t old_n = 0;
+  bool tracked = false;
   if (p) {
     auto it = G.heap.find(p);
-    if (it != G.heap.end()) old_n = it->second;
+    if (it != G.heap.end()) {
+      old_n = it->second;
+      tracked = true;
+      heap_tail_check(p, old_n, "realloc");
+    }
   }
-  void *q = __real_realloc(p, n);
-  if (p && (q || n == 0)) G.heap.erase(p);
+  if (p && !tracked) return __real_realloc(p, n);  // a block libc allocated itself (getline, ...): none of our business
+  if (p && n == 0) {
+    G.heap.erase(p);
+    __real_free(p);
+    return nullptr;
+  }
+  void *q = __real_realloc(p, n + HEAP_TAIL);
   if (q) {
+    if (p) G.heap.erase(p);
     G.heap[q] = n;
-    if (n > old_n && (old_n > 0 || !p)) memset((char *)q + old_n, heap_junk(), n - old_n);
+    if (n > old_n) memset((char *)q + old_n, heap_junk(), n - old_n);
+    heap_tail_set(q, n);
   }
   return q;
 }
@@ -821,7 +866,13 @@ extern "C" void __wrap_free(void *p) {
   }
   HarnessScope hs_;
   answer(K_FREE);
-  if (p) G.heap.erase(p);
+  if (p) {
+    auto it = G.heap.find(p);
+    if (it != G.heap.end()) {
+      heap_tail_check(p, it->second, "free");
+      G.heap.erase(it);
+    }
+  }
   __real_free(p);
 }
 
